@@ -13,7 +13,8 @@ SHRINK_LISTS = ['ddls']
 COVERAGE_RULE = ('one run = real Cluster/ControlConnection over 2-4 fake nodes (one possibly in a remote dc ignored by the '
                  'load-balancing policy, so its Host.is_up stays None; one possibly crashed and marked down); '
                  'max_schema_agreement_wait W in [0.5, 5] s; 1-3 schema-changing statements: the coordinator switches to a new '
-                 'schema version at once, every other node after its own delay (or never); poll replies may be slow; the request '
+                 'schema version at once, every other node after its own delay (or never); poll replies may be slow, or the control node may leave every '
+                 'poll of (part of) a wait unanswered so that they time out (control_connection_timeout 0.3-2 s); the request '
                  'timeout may be shorter than W; also cluster.refresh_schema_metadata(W); every poll served by the control node is '
                  'logged; distinct = event-log digest; non-trivial = at least one poll saw disagreeing versions')
 RULES = {
@@ -25,10 +26,10 @@ RULES = {
 WORLD_INFO = {'real': ['ControlConnection.wait_for_schema_agreement/_get_schema_mismatches/refresh_schema', 'refresh_schema_and_set_result, '
                        'ResponseFuture.is_schema_agreed/_on_timeout', 'Cluster.refresh_schema_metadata'],
               'stub': ['libev C binding', 'sockets/TCP', 'ThreadPoolExecutor', 'fake nodes with per-node schema version timelines']}
-ASSUMPTIONS = ['poll replies are delayed but never lost, so a served poll is a seen poll',
+ASSUMPTIONS = ['poll replies are delayed (less than control_connection_timeout) or, during a blackout window, not sent at all and not logged as served: a served poll is a seen poll',
                'a node crashed (RST, gossip DOWN event) 1.5 s before the first statement counts as marked down; this is checked on Host.is_up']
 REQUIRED_PROBES = ['peer_came_up_during_wait', 'disagreeing_poll', 'agreement_after_wait', 'wait_exhausted', 'peer_with_unknown_liveness', 'peer_marked_down',
-                   'client_timeout_during_wait']
+                   'client_timeout_during_wait', 'every_poll_unanswered']
 
 
 def prepare():
@@ -66,8 +67,19 @@ def gen_plan(rng, tier):
             if i not in (0, down):
                 ddls[k]['lag'][str(i)] = round(rng.choice([0.5, 0.6, 0.75]) * W, 3)
         ddls[k]['timeout'] = 10.0
+    slow_polls = rng.choice([1, 1, 10, 40])
+    ctl_timeout = 2.0
+    if mid is None and rng.random() < 0.3:
+        # the control node stays connected but leaves the schema-version polls unanswered: for the whole wait (no snapshot is ever
+        # seen), for its first part, or for its last part; the polls then time out after control_connection_timeout each
+        ctl_timeout = rng.choice([1.0, 2.0] if slow_polls >= 10 else [0.3, 1.0, 2.0])
+        d = rng.choice(ddls)
+        kind = rng.choice(['whole', 'whole', 'head', 'tail'])
+        d['blackout'] = {'whole': {'after': 0.0, 'for': W + 0.5}, 'head': {'after': 0.0, 'for': round(W * 0.5, 3)},
+                         'tail': {'after': round(W * 0.3, 3), 'for': W + 0.5}}[kind]
+        d['timeout'] = rng.choice([10.0, 10.0, W + 1.0])
     return {'cluster': {'nodes': nodes}, 'version': 4, 'W': W, 'ignored': ignored, 'down': down, 'mid_restart': mid, 'ddls': ddls,
-            'slow_polls': rng.choice([1, 1, 10, 40]), 'strategy': gen_strategy(rng), 'time_jump_p': 0}
+            'slow_polls': slow_polls, 'ctl_timeout': ctl_timeout, 'strategy': gen_strategy(rng), 'time_jump_p': 0}
 
 
 def run_plan(plan, seed, choices=None):
@@ -86,6 +98,11 @@ def run_plan(plan, seed, choices=None):
         v = new_version()
         coordinator.schema_version = v
         sim.rec('schema', 'n%d -> v%d' % (coordinator.idx, gen[0]))
+        bo = d.get('blackout')
+        if bo:
+            drop = (0, 'system.')
+            sim.at(bo['after'], (lambda: (fc.sys_drops.append(drop), w.net.count('poll_blackout'))), 'poll blackout begins')
+            sim.at(bo['after'] + bo['for'], (lambda: fc.sys_drops.remove(drop) if drop in fc.sys_drops else None), 'poll blackout ends')
         for i, n in enumerate(fc.nodes):
             if n is coordinator or not n.up:
                 continue
@@ -110,7 +127,7 @@ def run_plan(plan, seed, choices=None):
         lbp = w.cpol.DCAwareRoundRobinPolicy(local_dc='dc1', used_hosts_per_remote_dc=0)
         try:
             cluster = w.make_cluster(protocol_version=4, idle_heartbeat_interval=0, profile={'lbp': lbp, 'timeout': 10.0},
-                                     max_schema_agreement_wait=W, status_event_refresh_window=0, topology_event_refresh_window=0,
+                                     max_schema_agreement_wait=W, control_connection_timeout=plan.get('ctl_timeout', 2.0), status_event_refresh_window=0, topology_event_refresh_window=0,
                                      schema_event_refresh_window=-1,
                                      reconnection_policy=w.cpol.ConstantReconnectionPolicy(500.0, max_attempts=None))
             session = cluster.connect(wait_for_all_pools=True)
@@ -243,6 +260,9 @@ def run_plan(plan, seed, choices=None):
             sim.probe('disagreeing_poll')
             nontrivial = True
         agreed_polls = [pr for pr in window if agrees(pr)]
+        if not window and plan['ddls'][rec['k']].get('blackout'):
+            sim.probe('every_poll_unanswered')
+            nontrivial = True
         out = rec.get('outcome')
         if rec['via'] == 'refresh':
             reported = out is not None and out[0] == 'ok'
